@@ -157,7 +157,7 @@ def mutate(problem, sol, m):
         stop()['load'][0] += m['d']
     elif op == 'MCapacity':
         for vt in vtypes(m['k']):
-            vt['capacity'] = [stop()['load'][0] - 1]
+            vt['capacity'] = [stop()['load'][0] - 1] + list(vt['capacity'][1:])
     elif op == 'MUnknownAct':
         stop()['activities'][m['a']]['jobId'] = UNKNOWN
     elif op == 'MUnknownUn':
